@@ -3,13 +3,17 @@ import GateModel.C23.Model
 /-
 C23 driver.  Stateful: the current proxy command tree and the player's permissions.
 
-  tree <node>…      node = <parent>:<name>:<perm|->:<redirect|->           impl `ok`
+  tree <node>…      node = <parent>:<name>:<perm|-|!>:<redirect|->         impl `ok`   (`!` = the requirement panics)
   perms <p,p,…|->                                                            impl `ok`
-  filter            impl: filterNode(root, player) walked in pre-order: `N<id> … R … U`, `nil`, or `diverges`
+  filter            impl: filterNode(root, player) walked in pre-order: `N<id> … R … U`, `nil`, `diverges`, or
+                    `panic` (a requirement's panic propagated out of the call: no tree is delivered — acceptable)
                     (cyclic trees are probed in a child process: stack overflow = `diverges`)
   merge <name:ident,…|->   the backend root's children;
                     impl: `root=<B:name:ident|P:name:id,…|-> sub=<walk of the injected proxy nodes|-> bk=<0|1>`
                     (bk = every kept backend node still has the subtree it had before)
+
+`filter` and `merge` lines carry the current tree and permissions once more as trailing `@tree=…;… @perms=…`
+arguments (ignored here) so that a reported case is a complete replay.
 
 Spec verdict on the implementation's output: every proxy node received passes its requirement; proxy nodes replace
 backend nodes of the same name; all other backend nodes are kept exactly once and unchanged; nothing else appears.
@@ -20,9 +24,12 @@ open Gate
 def parseOptNat (s : String) : Option (Option Nat) :=
   if s = "-" then some none else s.toNat?.map some
 
+def parseReq (s : String) : Option Req :=
+  if s = "-" then some .free else if s = "!" then some .panics else s.toNat?.map .perm
+
 def parseNode (s : String) : Option PNode :=
   match s.splitOn ":" with
-  | [p, name, req, red] => do pure ⟨← p.toNat?, name, ← parseOptNat req, ← parseOptNat red⟩
+  | [p, name, req, red] => do pure ⟨← p.toNat?, name, ← parseReq req, ← parseOptNat red⟩
   | _ => none
 
 def parsePerms (s : String) : Option (List Nat) :=
@@ -88,7 +95,7 @@ def verdictMerge (ds : DS) (backend : List BNode) (impl : String) : String :=
         else "ok"
       | _, _ => "viol:unreadable"
     | _ => "viol:unreadable"
-  | _ => if impl = "hang" then "viol:hang" else if impl = "panic" then "viol:panic" else "viol:unreadable"
+  | _ => if impl = "hang" then "viol:hang" else "viol:unreadable"
 
 def step (ds : DS) (c : Case) : DS × String × String :=
   match c.op, c.args with
@@ -100,27 +107,30 @@ def step (ds : DS) (c : Case) : DS × String × String :=
     match parsePerms p with
     | some ps => ({ ds with perms := ps }, "ok", "-")
     | none => (ds, "bad-op", "-")
-  | "filter", [] =>
+  | "filter", _ =>
     let out := match filter ds.tree ds.perms (fuelFor ds.tree) 0 with
-      | none => "diverges"
-      | some [] => "nil"
-      | some ts => showToks ts
+      | .diverges => "diverges"
+      | .panicked => "panic"
+      | .ok [] => "nil"
+      | .ok ts => showToks ts
     let v :=
       if c.impl = "diverges" then "viol:redirect-cycle-diverges"
+      else if c.impl = "panic" then "ok"        -- the panic propagated: no tree was delivered
       else match parseToks c.impl with
         | some ts => if allUsable ds ts then "ok" else "viol:unusable-node-sent"
-        | none => "viol:" ++ (if c.impl = "hang" then "hang" else if c.impl = "panic" then "panic" else "unreadable")
+        | none => "viol:" ++ (if c.impl = "hang" then "hang" else "unreadable")
     (ds, out, v)
-  | "merge", [b] =>
+  | "merge", b :: _ =>
     match parseBackend b with
     | none => (ds, "bad-op", "-")
     | some backend =>
       let root := merge backend (proxyRootChildren ds.tree ds.perms)
-      let sub := match filter ds.tree ds.perms (fuelFor ds.tree) 0 with
-        | some ts => showToks (stripRoot ts)
-        | none => "diverges"
-      let out := "root=" ++ (if root.isEmpty then "-" else ",".intercalate (root.map MNode.show)) ++ " sub=" ++ sub ++ " bk=1"
-      (ds, out, verdictMerge ds backend c.impl)
+      let out := match filter ds.tree ds.perms (fuelFor ds.tree) 0 with
+        | .ok ts => "root=" ++ (if root.isEmpty then "-" else ",".intercalate (root.map MNode.show)) ++
+            " sub=" ++ showToks (stripRoot ts) ++ " bk=1"
+        | .panicked => "panic"
+        | .diverges => "diverges"
+      (ds, out, if c.impl = "panic" then "ok" else verdictMerge ds backend c.impl)
   | _, _ => (ds, "bad-op", "-")
 
 end Gate.C23
